@@ -190,8 +190,15 @@ fn from_arc_f64(d: &mut Draw) -> Outcome {
         let k = d.int(-480, 480) as i32;
         ((2.0f64).powi(k), (2.0f64).powi(-k + d.int(-9, 9) as i32))
     } else if cls == "opposite" || cls == "equal" {
-        // powers of two keep exact (anti)parallelism exact
-        ((2.0f64).powi(d.int(-9, 9) as i32), (2.0f64).powi(d.int(-9, 9) as i32))
+        // powers of two keep exact (anti)parallelism exact; now and then a short src (down to 2^-50) against a dst long
+        // enough for |src||dst| - the quantity the constructor's parallel / antiparallel tests compare with the absolute
+        // epsilon - to be of ordinary size
+        if d.chance(1, 3) {
+            let e1 = d.int(-50, -10) as i32;
+            ((2.0f64).powi(e1), (2.0f64).powi(-e1 + d.int(-9, 20) as i32))
+        } else {
+            ((2.0f64).powi(d.int(-9, 9) as i32), (2.0f64).powi(d.int(-9, 9) as i32))
+        }
     } else if unit_dot {
         // lengths chosen so that src . dst = 1 although the vectors are neither unit nor parallel
         let l1 = d.f64_log(1e-2, 1e2);
